@@ -93,6 +93,13 @@ CHECKS['C12'] = dict(
          'the real Program either reaches its first execute() (accepted) or raises the documented error class with an empty execution recorder and no output file (rejected before any side effect); accepted iff the reference predicate says well-formed.',
     note='Trusted: z3 (fault enumeration), reference predicate (DESIGN.md Appendix D); values inside a kind come from small representative sets (value-level cleaning is C20).',
     ref='DESIGN.md §3 C12')
+CHECKS['C11'] = dict(
+    technique='symbolic execution of the real t_newline / Parser.parse / loader with a symbolic line counter, symbolic line-break strings and distinct symbolic node line numbers; z3 decides lineno == true line; live-regex lemma for line-break runs',
+    text='Bounded symbolic model checking: (1) the real newline rule on a symbolic run over {CR,LF} with a symbolic counter must add exactly the number of line breaks, and the live master regex matches a maximal run as one token (z3 regex lemma); '
+         '(2) programs rendered with solver-chosen layouts (blank/comment lines, trailing comments, arguments and lists spread over lines, LF/CRLF/CR) are parsed by a Parser whose line counter is an arbitrary symbolic integer and whose EEMS-2 flag is arbitrary (any parse history in one step): every command, argument and list element must carry its true line; '
+         '(3) the loader is fed a parse tree whose 30+ line numbers are distinct symbolic integers, one of 9 faults is injected, and the raised error must carry the line term of the offending command/argument.',
+    note='Trusted: z3; A-lex (greedy = longest, checked on witnesses); S-parser stub for the error-line part; CLI marker arithmetic is checked in C13.',
+    ref='DESIGN.md §4 C11')
 NOT_YET = {}
 ALL = ['C%02d' % i for i in range(1, 21)]
 
